@@ -11,6 +11,30 @@ TRUSTED_BASE = [
 
 PROPS = {
     "_suite_timeout": {"quick": 1500, "thorough": 7200},
+    "C01": {"suites": ["ns", "fat", "volume"],
+            "rule": "ns: random namespace programs (makedir/makedirs/create/touch/writebytes/appendbytes/remove/removedir/removetree/copy/move + reads) over "
+                    "mixed name pools x geometries (FAT12/16/32, sector sizes, 1-3 FATs, offsets) x lazy/eager x both formatters, each call compared with the "
+                    "reference filesystem; distinct = (configuration, length, set of op kinds). fat: fill-to-full / delete / refill / shrink-grow programs."},
+    "C03": {"suites": ["ns", "fat", "names"],
+            "rule": "after every completed mutating call (and after close) a copy of the device is mounted by a fresh instance (lazy and eager) and walked; "
+                    "compared with the live walk (names, kinds, sizes, contents, times)"},
+    "C04": {"suites": ["ns", "fat", "volume"],
+            "rule": "closed images of every history judged by the independent checker (chains in range/acyclic/terminated/disjoint/length=size, leaks, FAT copies, "
+                    "reserved entries); volume: allocator/follower/release vs Model.Alloc on random and structured tables"},
+    "C05": {"suites": ["ns", "fat", "names"],
+            "rule": "closed images judged by the independent checker's directory rules (dot entries, long-name sets, short names, nothing after the end mark, "
+                    "directory sizes, boot geometry unchanged); names: every name length 1..255 and 13-boundaries x code pages"},
+    "C06": {"suites": ["ns", "fat", "foreign", "volume"],
+            "rule": "closed image decoded by the independent reader and compared with the last live walk; offsets and several geometries"},
+    "C07": {"suites": ["foreign", "volume", "codec"],
+            "rule": "images from the independent builder over geometry x placement (seq/rev/frag/max) x debris; thresholds 4083..4086 and 65523..65526 clusters; "
+                    "distinct = (geometry index, placement, debris, type)"},
+    "C08": {"suites": ["fat", "ns", "volume"],
+            "rule": "every device access of every history checked against the volume bounds (guard bands, device length); volume: every distinct access "
+                    "classified into the model's admissible access kinds"},
+    "C15": {"suites": ["names"],
+            "rule": "legal names: every length (quick: all 13-boundaries +-1 and 1..12, 127..129, 254, 255; thorough: 1..255), spaces, dots, case mixes, "
+                    "non-OEM and non-BMP characters, alias-collision families; x code pages x preserve_case; live and after remount"},
     "C20": {
         "suites": ["codec"],
         "rule": "codec: exhaustive over all 65536 date and time words, all calendar dates 1980-2107, all 86400 times of day; "
@@ -22,7 +46,45 @@ PROPS = {
     },
 }
 
+_NOTE = ("trusted: Lean kernel; gen_model.py (extractor/translator) and PyInt; the Python harness incl. the independent builder/reader/checker "
+         "(harness/specfat.py) used as oracle on the real code; hand-written Model/* tied by differential execution, not by proof. ")
+
 MANIFEST_TEXT = {
+    "C01": {"text": "Theorems: allocate_bytes raises ENOSPC only when fewer than n+1 allocatable clusters lie behind the hint (all tables, all n); directory scan "
+                    "returns exactly the written entries; alias never shadows. The refinement of the primitives to the reference filesystem is decided by "
+                    "differential execution of random programs on the real code (not a theorem).",
+            "note": _NOTE + "Reference = fs.memoryfs.MemoryFS with fs.base's compound helpers; create() on a directory is FileExpected (pinned by the repo's tests).",
+            "technique": "Lean 4 proof (allocator completeness, scan round trip) + differential programs vs reference filesystem"},
+    "C03": {"text": "Theorems: parse(serialise(FAT)) = FAT for FAT12 (every length)/16/32 incl. reserved bits; scan(serialise(directory)) = directory incl. long names, "
+                    "whatever follows the end mark. Whether each operation issues the writes is decided by remounting a device copy after every call on the real code.",
+            "note": _NOTE, "technique": "Lean 4 proof of the representation round trips + remount-after-every-call oracle"},
+    "C04": {"text": "Theorem c04_reachable: every reachable state of the FAT machine (allocate/extend/release/truncate = the four ways the code changes its FAT, "
+                    "failed steps included) represents pairwise disjoint, well-formed, in-range chains and nothing else; follower reads back the chain; reserved "
+                    "entries untouched; flush/parse identity. Image-level statement decided by the independent checker on real closed images.",
+            "note": _NOTE + "Model.Alloc is tied to allocate_bytes/get_cluster_chain/free_cluster_chain by component correspondence (suite volume).",
+            "technique": "Lean 4 invariant proof by induction over operation sequences + independent fsck on real images"},
+    "C05": {"text": "Theorems for every name of 1..255 units: slot count, ordinals, flag, checksum/cluster/attribute/type fields, NUL+0xFFFF padding, set directly "
+                    "before its short entry; translated checksum = specification; alias conform and unique; nothing behind the end mark is read. "
+                    "Images judged by the independent checker's directory rules on the real code.",
+            "note": _NOTE + "'.'/'..' construction and dir size 0 are checked on images only (no theorem).",
+            "technique": "Lean 4 proof over Model.Dir/Model.Names + independent directory checker"},
+    "C06": {"text": "Theorems: every encoding the writer uses equals the formula an independent reader applies (cluster address and geometry from translated code, "
+                    "FAT12/16/32 entries, date/time fields, checksum, long-name decoding). Image-level agreement by an independent reader on real images.",
+            "note": _NOTE, "technique": "Lean 4 proof of writer-encoding = specification-decoding + independent reader"},
+    "C07": {"text": "Theorem c07_fatType: translated __determine_fat_type fed the translated root-directory size = the specification's cluster-count rule on every "
+                    "valid BPB; entries/scan/long names as in C06/C05 for arbitrary placement and junk after the end mark. mount∘build = id on the real code by "
+                    "the independent builder over geometries, thresholds and placements.",
+            "note": _NOTE + "Known finding D25: cluster numbers 0x..F0-0x..F6 (only on volumes within 6 clusters of a threshold) are rejected.",
+            "technique": "Lean 4 proof (type rule over translated code) + independent image builder as generator and oracle"},
+    "C08": {"text": "Theorems: on every valid BPB each admissible access kind lies inside the volume; allocator hands out only clusters below the bound computed "
+                    "from the cluster count; translated address/count functions = specification. Every real access is classified into those kinds; guard bands "
+                    "and device length watched on the real code.",
+            "note": _NOTE + "mkfs is covered by C14's suite, not here.",
+            "technique": "Lean 4 arithmetic proof + access-log classification against the model + guard bands"},
+    "C15": {"text": "Theorems: long-name round trip for every length; created entry found and earlier entries unchanged (scan∘serialise = id); alias conform, fresh. "
+                    "Naming decisions of create/makedir compared with Model.Names.newName; real create/exists/listdir/remount oracle over legal names.",
+            "note": _NOTE + "CharEnv (upper/encode/decode/isspace) is supplied by CPython per name. Known findings D2 (lead byte 0xE5), D26 (preserve_case=False lookup).",
+            "technique": "Lean 4 proof over Model.Dir/Model.Names + naming correspondence + real-filesystem oracle"},
     "C20": {
         "text": "Lean theorems, for all inputs: date/time decoders total and inverse to the *translated* serialize_date/serialize_time; "
                 "FAT12/16/32 parse/serialise mutually inverse for every table length (FAT12 tail residues, FAT32 reserved bits) and equal to the "
